@@ -32,7 +32,11 @@ static json_object *gen_double(void)
 		memcpy(&d, &b, 8);
 		if (isnan(d) || isinf(d))
 			d = 1.5;
-		return json_object_new_double(d);
+		json_object *o = json_object_new_double(d);
+		/* the public per-node serializer with the default format spelled out prints what the built-in one prints */
+		if (vh_below(5) == 0)
+			json_object_set_serializer(o, json_object_double_to_json_string, strdup("%.17g"), json_object_free_userdata);
+		return o;
 	}
 	if (r == 7)
 	{
@@ -45,6 +49,13 @@ static json_object *gen_double(void)
 	{
 		static const char *txt[] = {"1.50", "15e-1", "0.10", "1E2", "-0.0", "1.0e+2", "100.000", "1e-2"};
 		const char *t = txt[vh_below(8)];
+		if (vh_below(3) == 0)
+		{
+			/* the same through the public pieces new_double_s is made of */
+			json_object *o = json_object_new_double(strtod(t, NULL));
+			json_object_set_serializer(o, json_object_userdata_to_json_string, strdup(t), json_object_free_userdata);
+			return o;
+		}
 		return json_object_new_double_s(strtod(t, NULL), t);
 	}
 	naninf = 1;
